@@ -23,6 +23,7 @@ type Case struct {
 	Buffered bool    `json:"buffered"` // certificate channel buffered (drained afterwards) or consumed by a goroutine
 	NbMax    int     `json:"nbmax,omitempty"`
 	Family   string  `json:"family,omitempty"`
+	Stdout   bool    `json:"stdout,omitempty"` // no certificate channel: the library prints the certificate on standard output
 }
 
 func check(c Case, o *vf.Obs) error {
@@ -45,7 +46,13 @@ func check(c Case, o *vf.Obs) error {
 		return fmt.Errorf("parse error: %v", err)
 	}
 	parseStatus := pb.Status
-	on, err := gs.Solve(solver.New(pb), true, c.Buffered && n <= 20)
+	o.ClassIf(c.Stdout, "cert-on-stdout")
+	var on gs.SolveResult
+	if c.Stdout {
+		on, err = gs.SolveStdout(solver.New(pb))
+	} else {
+		on, err = gs.Solve(solver.New(pb), true, c.Buffered && n <= 20)
+	}
 	if err != nil {
 		return fmt.Errorf("malformed certificate line: %v", err)
 	}
@@ -147,6 +154,7 @@ func check(c Case, o *vf.Obs) error {
 func config(t *rapid.T, c *Case) {
 	c.Entry = rapid.SampledFrom([]string{"slicenb", "cnf", "slice"}).Draw(t, "entry")
 	c.Buffered = rapid.Bool().Draw(t, "buffered")
+	c.Stdout = gen.Chance(t, 1, 4, "stdout")
 	switch rapid.IntRange(0, 3).Draw(t, "nbmaxSel") {
 	case 1:
 		c.NbMax = c.N + 1
@@ -194,6 +202,7 @@ func genLadder(t *rapid.T) Case {
 	c.Family = "ladder-" + tail
 	c.Entry = rapid.SampledFrom([]string{"slicenb", "cnf"}).Draw(t, "entry")
 	c.Buffered = false
+	c.Stdout = gen.Chance(t, 1, 4, "stdout")
 	return c
 }
 
